@@ -518,6 +518,19 @@ GSplitProg(n, E, part) ==
 \* random digraphs on n providers (n = 5, 6: beyond exhaustive reach): k random edge sets of about m edges (TLC -seed decides)
 FamilyGRand(p, n, k, m) ==
   \E E \in RandomSetOfSubsets(k, m, (1..n) \X (1..n)) : p = GProg(n, E, [i \in 1..n |-> "f"], "set")
+\* lassos: a path of d providers leading into a cycle of c providers (or, when ~back, into a chain), where one provider x
+\* additionally takes a leaf type T9 before ("first") or after ("last") the parameter that continues the path
+LassoProg(d, c, x, leafpos, back) ==
+  LET n == d + c
+      succ(i) == IF i < n THEN <<TN(i + 1)>> ELSE IF back THEN <<TN(d + 1)>> ELSE <<>>
+      ins(i) == IF i = x THEN (IF leafpos = "first" THEN <<"T9">> \o succ(i) ELSE succ(i) \o <<"T9">>) ELSE succ(i)
+      leaves == [i \in 1..n |-> Func(PN(i), ins(i), TN(i), FALSE, FALSE)] \o <<Func("P9", <<>>, "T9", FALSE, FALSE)>>
+      key == "G/lasso/d" \o ToString(d) \o "c" \o ToString(c) \o "/x" \o ToString(x) \o leafpos \o (IF back THEN "/cyclic" ELSE "/chain")
+  IN Prog(key, "G", [i \in 1..n |-> Tok(TN(i))] \o <<Tok("T9")>>, leaves,
+          <<SetD("SetA", "a", [k \in 1..(n + 1) |-> ItL(k)])>>, <<Inj("Inject", <<>>, "T1", FALSE, FALSE, <<ItS(1)>>)>>)
+FamilyLasso(p) ==
+  \E d \in 0..3 : \E c \in 1..3 : \E x \in 0..(d + c) : \E lp \in {"first", "last"} : \E back \in BOOLEAN :
+    (x = 0 => lp = "first") /\ p = LassoProg(d, c, x, lp, back)
 \* the same sets, but no injector uses them: only `wire check` / `wire show` look at them
 GSplitUnused(n, E, part) ==
   LET q == GSplitProg(n, E, part)
